@@ -338,6 +338,17 @@ impl Ast {
         // Add the element to this AST.
         self.add_element(element)
     }
+
+    /// Removes every element that was added to this AST after it contained `len` elements (and their entries in the
+    /// [lookup table](Ast::lookup_table)).
+    ///
+    /// This is used to discard the elements of a file that failed to parse. Some of them are only partially
+    /// constructed: members are added to the AST before their parent, which is owned by the parser until it's fully
+    /// parsed, and is dropped if parsing fails. So these elements can hold dangling pointers and must not be used.
+    pub(crate) fn truncate(&mut self, len: usize) {
+        self.elements.truncate(len);
+        self.lookup_table.retain(|_, index| *index < len);
+    }
 }
 
 impl Default for Ast {
